@@ -59,6 +59,12 @@ NT = T.NewType('NT', int)
 NU = T.NewType('NU', U0)
 NN = T.NewType('NN', NT)                               # nested NewType
 NL = T.NewType('NL', list[int])                        # NewType over a non-class (outside the model)
+# Annotated by beartype validators: the metadata changes the meaning, which the model's opaque metadata cannot express;
+# these hints take part in the real-output oracles only
+from beartype.vale import IsEqual as _IsEqual, IsInstance as _IsInstance  # noqa: E402
+AV1 = T.Annotated[int, _IsEqual[1]]
+AV2 = T.Annotated[int, _IsEqual[2]]
+AVB = T.Annotated[int, _IsInstance[bool]]
 C = A.Callable
 L = T.Literal
 An = T.Annotated
@@ -69,7 +75,7 @@ def fixed_pool(big: bool) -> list:
     """The representative pool: seed-independent, every wrapper class, depth <= 2."""
     leaves = [int, bool, str, U0, U1, type(None), object, L[1], L[True], L['a'], L[1, 'a'], NT, TV, TC, list, tuple,
               A.Sequence, C]
-    H = list(leaves) + [T.Any, float, TF, TB, TO, NU, NN, NL, dict, A.Mapping, A.Iterable]
+    H = list(leaves) + [T.Any, float, TF, TB, TO, NU, NN, NL, dict, A.Mapping, A.Iterable, AV1, AV2, AVB]
     H += [list[int], list[bool], list[object], list[T.Any], T.List[int], A.Sequence[int], A.Sequence[bool], A.Iterable[int],
           A.Collection[int], set[int], frozenset[bool], A.Set[int],
           tuple[int, ...], tuple[bool, ...], tuple[object, ...], tuple[int, int], tuple[bool, int], tuple[int], tuple[()],
@@ -214,9 +220,16 @@ def is_union(h) -> bool:
     return T.get_origin(h) is T.Union or isinstance(h, types.UnionType)
 
 
-def to_model(h, cx: Ctx):
+def to_model(h, cx: Ctx, partial: bool = False):
     """Real hint -> DHint s-expression, from typing's public introspection only."""
-    m = lambda x: to_model(x, cx)
+    if partial:
+        def m(x):
+            try:
+                return to_model(x, cx, True)
+            except Unmodelled:
+                return ['opaque']
+    else:
+        m = lambda x: to_model(x, cx)
     reg = cx.reg
     h = canonical(h)
     if h is T.Any:
@@ -242,6 +255,8 @@ def to_model(h, cx: Ctx):
                 raise Unmodelled('literal member')
         return ['lit'] + [[reg.id(type(a)), atom_of(a, reg)] for a in args]
     if origin is T.Annotated:
+        if any(type(x).__module__.startswith('beartype.') for x in h.__metadata__):
+            raise Unmodelled('validator metadata')
         return ['ann', m(h.__origin__), [cx.md_id(x) for x in h.__metadata__]]
     if origin is tuple:
         if repr(h).endswith('[()]') or args == ((),):
@@ -293,19 +308,20 @@ def walk(t):
 
 
 def conditions(t, cx: Ctx) -> set:
-    """Which side conditions of Props/C19.lean (`DHint.Reg`) the model hint violates."""
+    """Which side conditions of Props/C19.lean (`DHint.Reg`) the model hint violates (`opaque` = a member outside the
+    modelled grammar: type[...], validator metadata, NewType over a non-class)."""
     out = set()
-    if t is None:
-        return {'unmodelled'}
     for n in walk(t):
+        if n[0] == 'opaque':
+            out.add('unmodelled')
+            continue
         if n[0] == 'any':
             out.add('any')
         if n[0] in ('union', 'tv'):
             if any(c[0] in ('union', 'tv') for c in n[1:]):
                 out.add('nested-branches')
         if n[0] == 'tv' and len(n) > 2:
-            igs = [ignorable(c, cx) for c in n[1:]]
-            if any(igs) and not all(igs):
+            if any(ignorable_s(c, cx) for c in n[1:]) and not all(ignorable(c, cx) for c in n[1:]):
                 out.add('typevar-constraints-part-ignorable')
         if n[0] == 'lit' and len({m[0] for m in n[1:]}) > 1:
             out.add('literal-mixed-types')
@@ -314,18 +330,34 @@ def conditions(t, cx: Ctx) -> set:
     return out
 
 
-def ignorable(t, cx: Ctx) -> bool:
+def attributable(cs: set) -> set:
+    """The side conditions a witness is attributed to: `callable` (Callable[..., r]) is not an excluded shape of the
+    real-output oracles, and `unmodelled` (a type[...] / validator member somewhere) only counts when nothing else explains
+    the witness."""
+    cs = set(cs) - {'callable'}
+    if len(cs) > 1:
+        cs.discard('unmodelled')
+    return cs
+
+
+def ignorable_s(t, cx: Ctx) -> bool:
+    """what the checker ignores (Lean: ignS)"""
     if t[0] == 'any':
         return True
     if t[0] == 'cls':
         return t[1] == 4 or cx.nt.get(t[1]) == 4
-    if t[0] == 'union':
-        return any(ignorable(c, cx) for c in t[1:])
+    if t[0] in ('union', 'tv'):
+        return any(ignorable_s(c, cx) for c in t[1:])
+    if t[0] == 'ann':
+        return ignorable_s(t[1], cx)
+    return False
+
+
+def ignorable(t, cx: Ctx) -> bool:
+    """TypeHint.is_ignorable (Lean: ign)"""
     if t[0] == 'tv':
         return all(ignorable(c, cx) for c in t[1:])
-    if t[0] == 'ann':
-        return ignorable(t[1], cx)
-    return False
+    return ignorable_s(t, cx)
 
 
 def size(t) -> int:
@@ -385,6 +417,68 @@ def run_model(cx: Ctx, models: list, objs: list | None = None):
     return out
 
 
+def used_classes(models) -> set:
+    out = {0, 1, 2, 3, 4}
+    for t in models:
+        if t is None:
+            continue
+        for n in walk(t):
+            if n[0] == 'cls':
+                out.add(n[1])
+            elif n[0] == 'cont':
+                out.add(n[2])
+            elif n[0] in ('map', 'call'):
+                out.add(n[1])
+            elif n[0] == 'lit':
+                out.update(m[0] for m in n[1:])
+    return out
+
+
+def world_wf(cx: Ctx, models) -> list:
+    """`DWorld.Wf` and the origin conditions of `DHint.Sem`, evaluated on the class table of THIS run (the hypotheses
+    under which the theorems speak about the running interpreter)."""
+    cs = cx.reg.classes
+    ids = sorted(used_classes(models) | set(cx.nt) | set(cx.nt.values()))
+
+    def sub(i, j):
+        try:
+            return i == j or issubclass(cs[i], cs[j])
+        except TypeError:
+            return False
+    bad = []
+    for a in ids:
+        if not sub(a, 4):
+            bad.append(f'obj_top: {cs[a]!r}')
+        if a != 4 and sub(4, a):
+            bad.append(f'obj_only: object is a subclass of {cs[a]!r}')
+        if sub(a, 1) and not sub(a, 3):
+            bad.append(f'tuple_coll: {cs[a]!r}')
+        for b in ids:
+            if sub(a, b):
+                for c in ids:
+                    if sub(b, c) and not sub(a, c):
+                        bad.append(f'sub_trans: {cs[a]!r} <= {cs[b]!r} <= {cs[c]!r}')
+    for c, p in cx.nt.items():
+        for d in ids:
+            if sub(c, d) != (d == c or sub(p, d)):
+                bad.append(f'nt_sub: {cs[c]!r} vs {cs[d]!r}')
+            if d != c and sub(d, c):
+                bad.append(f'nt_leaf: {cs[d]!r} subclasses the NewType stand-in {cs[c]!r}')
+    if 4 in cx.nt or 1 in cx.nt:
+        bad.append('nt_obj/nt_tuple')
+    for t in models:
+        if t is None:
+            continue
+        for n in walk(t):
+            if n[0] == 'cont' and n[1] != 'quasi':
+                bad += [f'CollOrigin: {cs[a]!r} <= {cs[n[2]]!r}' for a in ids if sub(a, n[2]) and not sub(a, 3)]
+            if n[0] == 'map':
+                bad += [f'MapOrigin: {cs[a]!r} <= {cs[n[1]]!r}' for a in ids if sub(a, n[1]) and not issubclass(cs[a], A.Mapping)]
+            if n[0] in ('cont', 'map') and (n[2 if n[0] == 'cont' else 1] == 4 or n[2 if n[0] == 'cont' else 1] in cx.nt):
+                bad.append('Proper/Reg: a container origin is object or a NewType stand-in')
+    return sorted(set(bad))
+
+
 def kind(h) -> str:
     from beartype.door import TypeHint
     try:
@@ -430,9 +524,19 @@ def explore(ck: Check, n_random: int, seed: int, big: bool) -> Explore:
         except Unmodelled:
             models.append(None)
     wrappers = [wrap(h) for h in pool]
-    conds = [conditions(t, cx) for t in models]
+    partials = []
+    for h, t in zip(pool, models):
+        if t is not None:
+            partials.append(t)
+        else:
+            try:
+                partials.append(to_model(h, cx, True))
+            except Unmodelled:
+                partials.append(['opaque'])
+    conds = [conditions(t, cx) for t in partials]
     sizes = [size(t) for t in models]
     label = [repr(h).replace('harness.props.c19.', '') for h in pool]
+    kinds = [kind(h) for h in pool]
     failures: dict[str, Failure] = {}
 
     def fail(key, what, rp, weight):
@@ -479,10 +583,10 @@ def explore(ck: Check, n_random: int, seed: int, big: bool) -> Explore:
             fuel += (ml == 'u') + (me == 'u')
             if LE[i][j] != ml:
                 diffs.append({'what': 'is_subhint', 'A': label[i], 'B': label[j], 'real': LE[i][j], 'model': ml,
-                              'weight': sizes[i] + sizes[j]})
+                              'weight': sizes[i] + sizes[j], 'hints': (i, j)})
             if EQ[i][j] != me:
                 diffs.append({'what': '==', 'A': label[i], 'B': label[j], 'real': EQ[i][j], 'model': me,
-                              'weight': sizes[i] + sizes[j]})
+                              'weight': sizes[i] + sizes[j], 'hints': (i, j)})
     ex.traces_validated += 2 * len(mi) ** 2
     # ---- correspondence: wrapper views ---------------------------------------------------------
     for i in mi:
@@ -508,8 +612,16 @@ def explore(ck: Check, n_random: int, seed: int, big: bool) -> Explore:
         if ra != ma:
             diffs.append({'what': 'args', 'A': label[i], 'real': ra, 'model': ma, 'weight': sizes[i]})
         ex.traces_validated += 1
+    wf_bad = world_wf(cx, models)
+    ex.extra['class_table_hypotheses'] = 'DWorld.Wf and the origin conditions hold for the %d classes used' % len(used_classes(models)) \
+        if not wf_bad else wf_bad[:10]
+    for b in wf_bad[:5]:
+        diffs.append({'what': 'the class table of this run violates a hypothesis of the theorems', 'detail': b, 'weight': 0})
     diffs.sort(key=lambda d: d['weight'])
     ex.corr_diffs = diffs[:20]
+    for d in ex.corr_diffs:
+        if 'hints' in d:
+            d['hints'] = pool_spec([pool[k] for k in d['hints']])
     ex.extra['model_out_of_fuel'] = fuel
     if fuel:
         ex.corr_diffs.append({'what': 'model ran out of fuel', 'count': fuel})
@@ -530,16 +642,15 @@ def explore(ck: Check, n_random: int, seed: int, big: bool) -> Explore:
         for j in af:
             Tm[i, j] = LE[i][j] == 't'
             Nm[i, j] = LE[i][j] == 'f'
-    T8 = Tm.astype(np.uint8)
+    T8 = Tm.astype(np.float32)
     n_triples = 0
     for i in af:
         reach = (T8[i] @ T8) > 0
         n_triples += int(Tm[i].sum()) * 1
         for c in np.nonzero(reach & Nm[i])[0]:
             for b in np.nonzero(Tm[i] & Tm[:, c])[0]:
-                cs = conds[i] | conds[b] | conds[int(c)]
-                cs -= {'callable'}
-                key = 'C19:trans:' + ('+'.join(sorted(cs)) or 'regular')
+                cs = attributable(conds[i] | conds[b] | conds[int(c)])
+                key = 'C19:trans:' + ('+'.join(sorted(cs)) or f'regular:{kinds[i]}<={kinds[int(b)]}<={kinds[int(c)]}')
                 fail(key, f'is_subhint(A, B) and is_subhint(B, C) but is_subhint(A, C) is False: A = {label[i]}, '
                           f'B = {label[int(b)]}, C = {label[int(c)]}',
                      {'oracle': 'trans', 'A': label[i], 'B': label[int(b)], 'C': label[int(c)],
@@ -574,8 +685,8 @@ def explore(ck: Check, n_random: int, seed: int, big: bool) -> Explore:
                 unconfirmed += 1
                 continue
             k, r = confirmed
-            cs = (conds[i] | conds[j]) - {'callable'}
-            key = 'C19:sound:' + ('+'.join(sorted(cs)) or 'regular')
+            cs = attributable(conds[i] | conds[j])
+            key = 'C19:sound:' + ('+'.join(sorted(cs)) or f'regular:{kinds[i]}<={kinds[j]}')
             fail(key, f'is_subhint(A, B) is True but {objs[k]!r} satisfies A and is rejected by B: A = {label[i]}, B = {label[j]}',
                  {'oracle': 'sound', 'A': label[i], 'B': label[j], 'object': repr(objs[k]), 'draw': r,
                   'hints': pool_spec([pool[i], pool[j]]), 'object_index': k if k < len(FIXED_OBJECTS) else None,
@@ -604,8 +715,8 @@ def explore(ck: Check, n_random: int, seed: int, big: bool) -> Explore:
                 if isinstance(x, (list, tuple, dict, set, frozenset)) and len(x) > 1 and not isinstance(x, tuple):
                     continue
                 if all(v is True for v in ai[k]) and any(v is False for v in aj[k]) and flat_enough(x):
-                    cs = (conds[i] | conds[j]) - {'callable'}
-                    key = 'C19:sound:' + ('+'.join(sorted(cs)) or 'regular')
+                    cs = attributable(conds[i] | conds[j])
+                    key = 'C19:sound:' + ('+'.join(sorted(cs)) or f'regular:{kinds[i]}<={kinds[j]}')
                     fail(key, f'is_subhint(A, B) is True but {x!r} is accepted by A and rejected by B: A = {label[i]}, B = {label[j]}',
                          {'oracle': 'sound', 'A': label[i], 'B': label[j], 'object': repr(x), 'draw': list(aj[k]).index(False),
                           'hints': pool_spec([pool[i], pool[j]]), 'object_index': k, 'object_literal': safe_literal(x)},
@@ -652,6 +763,11 @@ def explore(ck: Check, n_random: int, seed: int, big: bool) -> Explore:
     for k in [k for k in failures if k.startswith(('C19:trans:', 'C19:sound:')) and '+' in k]:
         if all(c in single for c in k.split(':', 2)[2].split('+')):
             del failures[k]
+    # violations inside the regular fragment: one witness per shape, the six smallest per oracle
+    for orc in ('C19:trans:regular:', 'C19:sound:regular:'):
+        ks = sorted((k for k in failures if k.startswith(orc)), key=lambda k: failures[k].replay['_weight'])
+        for k in ks[6:]:
+            del failures[k]
     ex.failures = sorted(failures.values(), key=lambda f: f.key)
     for f in ex.failures:
         f.replay.pop('_weight', None)
@@ -661,7 +777,7 @@ def explore(ck: Check, n_random: int, seed: int, big: bool) -> Explore:
     ex.distinct_nontrivial = len(nontriv)
     ex.extra.update({'hints': N, 'fixed_pool': n_fixed, 'modelled_hints': len(mi), 'hints_with_meaning': len(sem),
                      'is_subhint_outcomes': dict(outcome),
-                     'wrapper_classes': dict(collections.Counter(kind(h) for h in pool)),
+                     'wrapper_classes': dict(collections.Counter(kinds)),
                      'side_condition_census': dict(collections.Counter(c for cs in conds for c in (cs or {'regular'})))})
     ex.samples = [{'A': label[i], 'B': label[j], 'is_subhint': LE[i][j]} for i, j in [(8, 6), (20, 30), (N - 1, N - 2)] if i < N and j < N]
     return ex
@@ -742,7 +858,8 @@ def children_oracle(w):
 
 
 # ----------------------------------------------------------------------------- replay
-NAMES = {'U0': U0, 'U1': U1, 'TV': TV, 'TC': TC, 'TF': TF, 'TB': TB, 'TO': TO, 'NT': NT, 'NU': NU, 'NN': NN, 'NL': NL}
+NAMES = {'U0': U0, 'U1': U1, 'TV': TV, 'TC': TC, 'TF': TF, 'TB': TB, 'TO': TO, 'NT': NT, 'NU': NU, 'NN': NN, 'NL': NL,
+         'AV1': AV1, 'AV2': AV2, 'AVB': AVB}
 
 
 def spec(h):
@@ -842,6 +959,8 @@ def replay(data: dict) -> int:
     from beartype.door import TypeHint
     warnings.simplefilter('ignore')
     breal.install_draw_control()
+    if data.get('correspondence_first_diffs'):
+        return replay_correspondence(data['correspondence_first_diffs'])
     hs = [unspec(s) for s in data.get('hints', [])]
     o = data.get('oracle')
     print('oracle:', o, ' hints:', hs)
@@ -892,19 +1011,49 @@ def replay(data: dict) -> int:
     return 0
 
 
+def replay_correspondence(diffs) -> int:
+    """Re-evaluate the recorded model/implementation differences: real is_subhint / == against the Lean model."""
+    cx = Ctx()
+    still = 0
+    for d in diffs:
+        if 'hints' not in d or d.get('what') not in ('is_subhint', '=='):
+            print('recorded difference:', d)
+            continue
+        a, b = (canonical(unspec(s)) for s in d['hints'])
+        ma, mb = to_model(a, cx), to_model(b, cx)
+        wa, wb = wrap(a), wrap(b)
+        res = run_model(cx, [ma, mb])
+        if d['what'] == 'is_subhint':
+            real, model = real_le(a, b), res[0][0][0][1]
+        else:
+            real, model = real_eq(wa, wb), res[0][1][0][1]
+        print(f'{d["what"]}({a!r}, {b!r}): real = {real}, model = {model}')
+        still += real != model
+    print(f'{still} of the recorded differences reproduce')
+    return 1 if still else 0
+
+
 def main(ck: Check) -> int:
     quick = ck.tier == 'quick'
     proof = ck.prove(MODULE, PROP_FILE)
-    ex = explore(ck, n_random=40 if quick else 150, seed=ck.seed, big=not quick)
+    ex = explore(ck, n_random=40 if quick else 500, seed=ck.seed, big=not quick)
     ck.decide(proof, ex, deep_search=lambda: explore(ck, n_random=150, seed=ck.seed + 1, big=True))
     ck.evidence(proof, ex,
-                level_note='theorems over ALL hints of the modelled grammar (reflexivity; transitivity and soundness under explicit '
-                           'decidable side conditions, each excluded point witnessed by a decided counterexample theorem that is '
-                           'replayed on the real code) + model/real comparison of every ordered pair and real-output oracles over all triples',
-                assumptions=['the class world (issubclass, container capabilities) is extracted from the running interpreter per run',
+                level_note='theorems over ALL hints of the modelled grammar and every fuel: reflexivity (no side condition), soundness on the '
+                           'Any-free Callable-free grammar, transitivity under decidable side conditions (each excluded shape has a decided '
+                           'counterexample theorem that the harness re-finds on the real code: known findings), == implies mutual subhint, '
+                           'children/args/identity coherence; partial: C19_refl_partial (a union can be undecidable against itself), '
+                           'C19_trans_partial, C19_eq_hash_partial (equal wrappers with unequal hashes exist). Tie: model/real comparison '
+                           'of every ordered pair + real-output oracles over all triples',
+                assumptions=['the model is the door code WITH /verif/fixes/C19_literal_subhint, C19_annotated_metahint, '
+                             'C19_callable_not_ignorable applied (on the unpatched tree the three defects are reported as violations)',
+                             'the class table (issubclass, container capabilities) is extracted from the running interpreter per run and '
+                             'checked against DWorld.Wf (transitive issubclass, object on top, ...) for the classes the pool uses',
                              'the meaning used for soundness is the Bear core `sat` of the translated hint (Annotated metadata opaque, '
-                             'a NewType means its alias, a TypeVar its bound/constraints); Callable and type[...] have no modelled meaning: '
-                             'real-checker oracle only',
-                             'generic classes (GenericTypeHint) are outside the model and the pool',
+                             'a NewType means its alias, a TypeVar its bound/constraints); Callable, type[...] and validator-annotated '
+                             'hints have no modelled meaning: real is_bearable oracle only',
+                             'a wrapper presents the children of the first EQUAL hint wrapped in the process (typing makes Union[a, b] == '
+                             'Union[b, a]); the model hint is read off TypeHint(h).hint',
+                             'generic classes (GenericTypeHint) and Callable in the transitivity theorem are outside the proved grammar',
                              'every TypeHint created in a run is kept alive (id-reuse of method_cached_arg_by_id is C14, F-C14b)'])
     return ck.finish()
